@@ -574,10 +574,162 @@ impl Analyzer
 				{
 					unreachable!()
 				}
-				ValueType::Pointer { .. } => Ok(value_type),
-				ValueType::View { .. } => Ok(value_type),
+				ValueType::Pointer { deref_type } =>
+				{
+					let deref_type = self.found_named_lengths(
+						name_of_container,
+						name_of_member,
+						*deref_type,
+					)?;
+					Ok(ValueType::Pointer {
+						deref_type: Box::new(deref_type),
+					})
+				}
+				ValueType::View { deref_type } =>
+				{
+					let deref_type = self.found_named_lengths(
+						name_of_container,
+						name_of_member,
+						*deref_type,
+					)?;
+					Ok(ValueType::View {
+						deref_type: Box::new(deref_type),
+					})
+				}
 			},
 			Err(poison) => Err(poison),
+		}
+	}
+
+	// A pointer or view does not embed its target, but a named length in the
+	// type of the target must still be resolved before the container is.
+	fn found_named_lengths(
+		&mut self,
+		name_of_container: &Identifier,
+		name_of_member: Option<&Identifier>,
+		value_type: ValueType,
+	) -> Poisonable<ValueType>
+	{
+		match value_type
+		{
+			ValueType::Array {
+				element_type,
+				length,
+			} =>
+			{
+				let element_type = self.found_named_lengths(
+					name_of_container,
+					name_of_member,
+					*element_type,
+				)?;
+				Ok(ValueType::Array {
+					element_type: Box::new(element_type),
+					length,
+				})
+			}
+			ValueType::ArrayWithNamedLength {
+				element_type,
+				named_length,
+			} =>
+			{
+				let element_type = self.found_named_lengths(
+					name_of_container,
+					name_of_member,
+					*element_type,
+				)?;
+				let named_length = self.found_container_1(
+					name_of_container,
+					name_of_member,
+					named_length,
+				)?;
+				Ok(ValueType::ArrayWithNamedLength {
+					element_type: Box::new(element_type),
+					named_length,
+				})
+			}
+			ValueType::Slice { element_type } =>
+			{
+				let element_type = self.found_named_lengths(
+					name_of_container,
+					name_of_member,
+					*element_type,
+				)?;
+				Ok(ValueType::Slice {
+					element_type: Box::new(element_type),
+				})
+			}
+			ValueType::SlicePointer { element_type } =>
+			{
+				let element_type = self.found_named_lengths(
+					name_of_container,
+					name_of_member,
+					*element_type,
+				)?;
+				Ok(ValueType::SlicePointer {
+					element_type: Box::new(element_type),
+				})
+			}
+			ValueType::EndlessArray { element_type } =>
+			{
+				let element_type = self.found_named_lengths(
+					name_of_container,
+					name_of_member,
+					*element_type,
+				)?;
+				Ok(ValueType::EndlessArray {
+					element_type: Box::new(element_type),
+				})
+			}
+			ValueType::Arraylike { element_type } =>
+			{
+				let element_type = self.found_named_lengths(
+					name_of_container,
+					name_of_member,
+					*element_type,
+				)?;
+				Ok(ValueType::Arraylike {
+					element_type: Box::new(element_type),
+				})
+			}
+			ValueType::Pointer { deref_type } =>
+			{
+				let deref_type = self.found_named_lengths(
+					name_of_container,
+					name_of_member,
+					*deref_type,
+				)?;
+				Ok(ValueType::Pointer {
+					deref_type: Box::new(deref_type),
+				})
+			}
+			ValueType::View { deref_type } =>
+			{
+				let deref_type = self.found_named_lengths(
+					name_of_container,
+					name_of_member,
+					*deref_type,
+				)?;
+				Ok(ValueType::View {
+					deref_type: Box::new(deref_type),
+				})
+			}
+			ValueType::Void
+			| ValueType::Int8
+			| ValueType::Int16
+			| ValueType::Int32
+			| ValueType::Int64
+			| ValueType::Int128
+			| ValueType::Uint8
+			| ValueType::Uint16
+			| ValueType::Uint32
+			| ValueType::Uint64
+			| ValueType::Uint128
+			| ValueType::Usize
+			| ValueType::Char8
+			| ValueType::Bool
+			| ValueType::Struct { .. }
+			| ValueType::Word { .. }
+			| ValueType::UnresolvedStructOrWord { .. } => Ok(value_type),
 		}
 	}
 
